@@ -162,7 +162,8 @@ claim('C16', 'Lean theorems: create-then-parse round trip for all field subsets/
       'separator-free UTF-8 values, any group triple: the created block initialises, is valid with matching '
       'checksums, every field parses back to its text, fields not given are None), C16_valid_iff, '
       'C16_unknown_ignored, C16_sentence_unchanged (the factory returns for a tag-blocked line what it returns for the '
-      'bare line, with the tag block attached); FIELD_CODES regenerated from source and pinned by decide.',
+      'bare line, with the tag block attached), C16_surrounding_whitespace (blanks and line terminators around the '
+      'line change nothing); FIELD_CODES regenerated from source and pinned by decide.',
       FLOAT_NOTE + 'int(str) on non-ASCII digits/Unicode spaces is outside the model (ASCII group members and checksums).',
       'DESIGN.md §5 C16')
 
